@@ -91,7 +91,12 @@ def run(tier):
     def has(h, k):
         return any(x["k"] == k for x in h)
 
+    def reform_then_setup(h):
+        ks = [x["k"] for x in h]
+        return "reform" in ks and "setup" in ks[ks.index("reform") + 1 :]
+
     strata = [
+        [h for h in cand if reform_then_setup(h) and h[-1]["e"] == 2],
         [h for h in cand if has(h, "reform") and sum(x["k"] == "setup" for x in h) == 2],
         [h for h in cand if has(h, "vectorize")],
         [h for h in cand if sum(x["k"] == "compute" for x in h) >= 2],
@@ -105,11 +110,16 @@ def run(tier):
             chosen.append(rnd.choice(s))
     from c04 import DATES
 
-    d2 = rnd.choice([d for d in DATES if d != "2023-01-01"])
-    concrete = {"dates": {"d1": "2023-01-01", "d2": d2}, "targets": {"T1": None, "T2": T2}, "groups": {"g1": "kindergeld"}, "rules": {"f1": "grundr_bew_zeiten_avg_entgeltp"}}
-    from _gettsim.config import DEFAULT_TARGETS
+    # d2: a date with a rounding offset in force (2001-2003) in quick; thorough rotates through more dates
+    d2 = "2002-01-01" if quick or chk.seed % 2 == 0 else rnd.choice([d for d in DATES if d != "2023-01-01"])
+    concrete = {"dates": {"d1": "2023-01-01", "d2": d2}, "targets": {"T1": None, "T2": None}, "groups": {"g1": "sozialv_beitr"}, "rules": {"f1": "grundr_bew_zeiten_avg_entgeltp"}}
+    import gs
 
-    concrete["targets"]["T1"] = list(DEFAULT_TARGETS)
+    # target sets that are computable at both dates: T1 the tax targets, T2 contributions and transfers
+    both = [set(gs.env(d)[1]) for d in concrete["dates"].values()]
+    avail = both[0] & both[1]
+    concrete["targets"]["T1"] = [t for t in ["eink_st_y_sn", "soli_st_y_sn", "kindergeld_m", "zu_verst_eink_y_sn"] if t in avail]
+    concrete["targets"]["T2"] = [t for t in ["sozialv_beitr_arbeitnehmer_m", "ges_rentenv_beitr_arbeitnehmer_m", "arbeitsl_geld_m", "ges_rente_m", "kindergeld_m"] if t in avail]
     hists = [concretise(h) for h in chosen]
     keys = {}
     for h in hists:
